@@ -225,6 +225,21 @@ pub trait ParallelIterator: Sized + Send {
     {
         MapWith { p: self, init: std::sync::Mutex::new(init), f, pool: StatePool::default() }
     }
+    fn for_each_init<INIT, T, F>(self, init: INIT, f: F)
+    where
+        INIT: Fn() -> T + Sync + Send,
+        T: Send,
+        F: Fn(&mut T, Self::Item) + Sync + Send,
+    {
+        drive(self.map_init(init, f), |_, ()| false)
+    }
+    fn for_each_with<T, F>(self, init: T, f: F)
+    where
+        T: Send + Clone,
+        F: Fn(&mut T, Self::Item) + Sync + Send,
+    {
+        drive(self.map_with(init, f), |_, ()| false)
+    }
     fn flatten(self) -> FlatMap<Self, fn(Self::Item) -> Self::Item>
     where
         Self::Item: IntoParallelIterator,
